@@ -168,13 +168,14 @@ Definition shape_of (strict : bool) (s : slot) (t : bytes) : shape :=
 Inductive act :=
 | AReadBody | AParseRequest
 | AOpenCursor (ok : bool) | ACacheGet (hit : bool) | AOpenCall (ok : bool) | AMethodCheck (ok : bool)
-| ARehydrate | AHookStart | AStateMethod | AHookEnd
+| ARehydrate | AHookStart | AStateMethod | ACancelMethod | AHookEnd   (* ACancelMethod = the state's OnCancel *)
 | ARespond (status : N) (l : label).
 
 Definition user_code (a : act) : bool :=
-  match a with ARehydrate | AHookStart | AStateMethod | AHookEnd => true | _ => false end.
+  match a with ARehydrate | AHookStart | AStateMethod | ACancelMethod | AHookEnd => true | _ => false end.
 
-Record req := { q_route : route; q_cursor : option bytes; q_call : option bytes }.
+(* q_cancel: the continuation carries the cancel key (handleStreamCancel instead of a turn) *)
+Record req := { q_route : route; q_cursor : option bytes; q_call : option bytes; q_cancel : bool }.
 
 (* ---- the pipeline and the handler, parametric in the AEAD --------------------- *)
 Section Pipeline.
@@ -211,7 +212,8 @@ Section Pipeline.
     if cold then c else match cache_get c id with Some _ => c | None => (id, m) :: c end.
 
   Definition pre : list act := [AReadBody; AParseRequest].
-  Definition run_user : list act := [ARehydrate; AHookStart; AStateMethod; AHookEnd; ARespond 200 LOk].
+  Definition run_user (cancel : bool) : list act :=
+    [ARehydrate; AHookStart; if cancel then ACancelMethod else AStateMethod; AHookEnd; ARespond 200 LOk].
 
   (* handleStreamExchange from the token extraction on *)
   Definition handle (cold : bool) (c : cache) (q : req) : list act * cache :=
@@ -223,7 +225,7 @@ Section Pipeline.
         | inr (cid, _) =>
             let finish (acts : list act) (m : route) (c' : cache) :=
               if route_eqb m (q_route q)
-              then (pre ++ AOpenCursor true :: acts ++ AMethodCheck true :: run_user, c')
+              then (pre ++ AOpenCursor true :: acts ++ AMethodCheck true :: run_user (q_cancel q), c')
               else (pre ++ AOpenCursor true :: acts ++ [AMethodCheck false; ARespond 400 LWrongMethod], c') in
             match (if cold then None else cache_get c cid) with
             | Some m => finish [ACacheGet true] m c
@@ -275,7 +277,9 @@ Inductive fam :=
 | FRawFlips (s : slot) (r partner lo hi : nat).   (* every bit of raw bytes lo .. hi-1 *)
 
 Record input := {
-  i_route : route; i_cold : bool; i_refs : list ref;
+  i_route : route; i_cold : bool;
+  i_cancel : bool;                    (* every presentation of the case is a CANCEL continuation *)
+  i_refs : list ref;
   i_warm : list (N * route);          (* call ids the server's /init calls put in the cache *)
   i_fams : list fam }.
 
@@ -283,7 +287,7 @@ Record pobs := { o_status : N; o_label : label; o_body : N; o_evs : list N; o_ac
 Definition obs := list pobs.
 
 Definition ev_code (a : act) : N :=
-  match a with ARehydrate => 1 | AHookStart => 2 | AStateMethod => 3 | AHookEnd => 4 | _ => 0 end.
+  match a with ARehydrate => 1 | AHookStart => 2 | AStateMethod => 3 | AHookEnd => 4 | ACancelMethod => 5 | _ => 0 end.
 
 Definition text_of (refs : list ref) (r : nat) : bytes :=
   match nth_error refs r with Some x => r_text x | None => [] end.
@@ -383,19 +387,19 @@ Definition pobs_of (tr : list act) (bid : N) : pobs :=
      o_evs := map ev_code (filter user_code tr);
      o_acc := (s =? 200) && label_eqb l LOk |}.
 
-Fixpoint run (strict : bool) (tb : list entry) (refs : list ref) (rt : route) (cold : bool)
+Fixpoint run (strict : bool) (tb : list entry) (refs : list ref) (rt : route) (cold cn : bool)
              (c : list (N * route)) (bm : list (label * N)) (ps : list (mut * mut)) : obs :=
   match ps with
   | [] => []
   | (mc, mk) :: rest =>
-      let q := {| q_route := rt; q_cursor := present refs mc; q_call := present refs mk |} in
+      let q := {| q_route := rt; q_cursor := present refs mc; q_call := present refs mk; q_cancel := cn |} in
       let '(tr, c') := handle N (tbl_open tb) strict 0 cold c q in
       let '(bid, bm') := body_id bm (snd (last_resp tr)) in
-      pobs_of tr bid :: run strict tb refs rt cold c' bm' rest
+      pobs_of tr bid :: run strict tb refs rt cold cn c' bm' rest
   end.
 
 Definition model_with (strict : bool) (i : input) : obs :=
-  run strict (table_of (i_refs i)) (i_refs i) (i_route i) (i_cold i)
+  run strict (table_of (i_refs i)) (i_refs i) (i_route i) (i_cold i) (i_cancel i)
       (if i_cold i then [] else i_warm i) [] (expand (i_fams i)).
 
 Definition model : input -> obs := model_with true.
